@@ -37,10 +37,14 @@ CLAIMED = {
                 text="Seeded search where the schedule is the cut set: for datasets of n <= 8 (quick) / 10 (thorough) entries all 2^(n-1) chunkings are enumerated per sampled dataset and computation (49 computations: mean/bincount/quantile/histogram, k-mer counts, groupby, chunk_entries/chunk_lines, streamable user functions, per-chromosome genomic pipelines evaluated with bnp.compute in single/tuple/dict form), in-memory streams and file-backed streams (read_chunks(k) over SimFS); streamed result must equal the same public function on the concatenated table. Cancel and EIO faults in ~12% of runs.",
                 note="Reference = bionumpy's own in-memory result; shapes whose in-memory reference raises are counted inconclusive; histogram with data-dependent edges and ragged axis-0 means are not judged.",
                 tech=TECH + "exhaustive cut-set schedule per sampled dataset + file-level chunk sizes + cancel/EIO faults; streamed == in-memory oracle"),
+    "C04": dict(engine="lazysim", cat="exploration", ref="§4 C04",
+                text="Seeded search over operation histories (select by slice/step/mask/integer list with repeats and negatives, concatenate, replace fields, field access, write; <= 12 ops) on tables read lazily, whole or chunked, from generated files with non-canonical text (leading zeros, '+5', scientific floats, CRLF, extra columns, SAM tags, FASTQ '+name'). A row model predicts the exact bytes of selection-only variables and the field texts after concatenation/replacement; every written variable is compared, and every variable is written once more at the end of the history.",
+                note="'Only the replaced columns change' is read column-wise: a column replaced in any operand of a concatenation may be re-serialised in all rows (compared by value). Lazy/eager agreement of pure observations is C05's subject. BAM sources are exercised under C16.",
+                tech=TECH + "operation-history scheduler on stateful lazy tables (raw buffer / parsed cache / set values) with a row model as oracle"),
 }
 
 _P = "check designed in DESIGN.md (simulated) but not built yet at this commit; not claimed until its check exists"
-PENDING = {k: _P for k in ["C04", "C05", "C16", "C20"]}
+PENDING = {k: _P for k in ["C05", "C16", "C20"]}
 
 NOT_APPLICABLE = {
     "C06": "pure function of (byte, alphabet): no storage, stream, history or shared state, so no scheduler or fault decision can change the outcome (DESIGN §4 C06)",
